@@ -85,6 +85,7 @@ class Fuzzer:
         self.history = []
         self.token_n = 0
         self.fail_next_schedule_db = False
+        self.early_job_started = 0
         self.resource_manager = FakeResourceManager(world)
         for p in world.pools.values():
             p.resource_manager = self.resource_manager
@@ -125,6 +126,16 @@ class Fuzzer:
                 })
                 if self.rng.random() < self.cfg['fault_schedule_db_p']:
                     self.fail_next_schedule_db = True  # worker accepted, the driver's CALL schedule_job fails
+                elif inst is not None and inst.state == 'active' and self.rng.random() < self.cfg.get('early_job_started_p', 0.08):
+                    # the worker starts the job at once and its job_started report overtakes the driver's own CALL schedule_job
+                    t = self.w.now_ms()
+                    st = {'status': {'batch_id': key[0], 'job_id': key[1], 'attempt_id': key[2], 'start_time': t, 'resources': []}}
+                    try:
+                        await self.w.dm.job_started(self._worker_request(inst, st))
+                        self.attempts[key]['started'] = True
+                        self.early_job_started += 1
+                    except Exception:  # the report is the worker's business; the POST itself succeeded
+                        pass
             return FakeResponse()
         return run()
 
